@@ -147,10 +147,18 @@ def wide_oracle(c, r):
     """generic rule for the wide correspondence stream (widegen.py): once a request has gone out, no undocumented exception escapes"""
     from harness import clientlib
     try:
-        cfgv, ops = clientlib.case_ops(c)
+        cfgv0, ops = clientlib.case_ops(c)
         n = len([o for o in ops if o[0] == 'call'])
-        calls = [o for o in ops if o[0] == 'call']
+        calls, cfgs, cur = [], [], list(cfgv0)
+        for o in ops:                       # the configuration in force at each call (histories may change it in between)
+            if o[0] == 'set_cfg':
+                cur = list(cur)
+                cur[o[1]] = o[2]
+            elif o[0] == 'call':
+                calls.append(o)
+                cfgs.append(cur)
         for i, d in enumerate(clientlib.parse_calls(r, n)[0]):
+            cfgv = cfgs[i]
             if d['kind'] == 'raised' and d['err'] == 1 and any(e[0] == 'S' for e in d['events']):
                 # ValueError is how arguments are refused BEFORE sending; after the request has gone out it is not a documented outcome
                 from harness import isospec
